@@ -293,8 +293,34 @@ Fixpoint star_fix (fuel : nat) (f : astate -> option leaves) (St : list astate) 
       end
   end.
 
+(* candidate closed set by a worklist exploration (seen = all states so far, front = those not yet expanded);
+   the result is only a candidate: [aexec] re-checks closure with one [star_fix] round *)
+Definition add_fresh (seen : list astate) (N : list astate) : list astate :=
+  fold_left (fun acc a => if amem a seen || amem a acc then acc else a :: acc) N [].
+Fixpoint explore (fuel : nat) (f : astate -> option leaves) (seen front : list astate) : option (list astate) :=
+  match fuel with
+  | O => None
+  | S fuel' =>
+      match front with
+      | [] => Some seen
+      | _ => match star_round f front with
+             | None => None
+             | Some (N, _) => let fresh := add_fresh seen N in explore fuel' f (seen ++ fresh) fresh
+             end
+      end
+  end.
+
+(* duplicate leaves are dropped as early as possible (keeps the leaf lists small) *)
+Definition leaf_eqb (x y : astate * bool) : bool := astate_eqb (fst x) (fst y) && Bool.eqb (snd x) (snd y).
+Fixpoint ldedup (L : leaves) : leaves :=
+  match L with
+  | [] => []
+  | x :: r => if existsb (leaf_eqb x) r then ldedup r else x :: ldedup r
+  end.
+
 (* canfail = false: analysis of a run in which the allocator never fails *)
 Fixpoint aexec (fuel : nat) (canfail : bool) (p : prog) (a : astate) : option leaves :=
+  option_map ldedup
   match p with
   | Skip => Some [(a, false)]
   | Seq p q => match aexec fuel canfail p a with None => None | Some L => bind_leaves L (aexec fuel canfail q) end
@@ -375,9 +401,13 @@ Fixpoint aexec (fuel : nat) (canfail : bool) (p : prog) (a : astate) : option le
   | IfErr p q => if astatus a then aexec fuel canfail q a else aexec fuel canfail p a
   | Forget => Some [(mkA (aslots a) (afams a) (aflags a) true false, false)]
   | Star p =>
-      match star_fix fuel (aexec fuel canfail p) [a] with
+      match explore fuel (aexec fuel canfail p) [a] [a] with
       | None => None
-      | Some (St, R) => Some (map (fun x => (x, false)) St ++ R)
+      | Some St0 =>
+          match star_fix 1 (aexec fuel canfail p) St0 with
+          | None => None
+          | Some (St, R) => Some (map (fun x => (x, false)) St ++ R)
+          end
       end
   end.
 
@@ -414,7 +444,7 @@ Definition closed_with (fuel : nat) (St : list astate) (P : astate -> bool) (p :
 
 (* the abstract states reachable from a by repeating p (None when the analysis rejects or runs out of fuel) *)
 Definition reach (fuel : nat) (p : prog) (a : astate) : option (list astate) :=
-  match star_fix fuel (aexec fuel true p) [a] with Some (St, _) => Some St | None => None end.
+  explore fuel (aexec fuel true p) [a] [a].
 
 (* ------------------------------------------------------------------ helpers for the correspondence runs *)
 Fixpoint nth_bool (l : list bool) (n : nat) : bool :=
